@@ -7,12 +7,15 @@
  * C01 "whatever the destination held before is entirely replaced" (doDeserialize clears before parse()).
  * C04 the public operations behave like their value model (swap/move transfer the COMPLETE state, clear() gives the null document).
  *
- * Two kinds of units (one #ifdef section each):
- *   modular (class U): the routine under contract runs against STUBS that implement the contracts of its callees; each stub names
- *            the obligation that proves that contract for the real callee.  State is any state (symbolic fields).
+ * Two kinds of units (one #ifdef section each; units/facade.json):
+ *   modular (class U, or B where a source list is bounded): the routine under contract runs against STUBS that implement the
+ *            contracts of its callees; each stub names the obligation that proves that contract for the real callee.
+ *            facade_rm, facade_deser_mod (any state), facade_doc_copy, facade_deser, facade_copy_containers, facade_setstring_alias.
  *   e2e (class B):     the same routines with their REAL callees down to the allocator stub of alloc.h, from a bounded but
  *            otherwise arbitrary concrete state (<= NP pools with real slot blocks, inline or heap pool table, <= 2 pooled
- *            strings) or from a bounded history of real operations.  These show that the contracts compose on the real code.
+ *            strings); "whatever the history" is the induction over operations of facade_rm_step (one arbitrary operation on
+ *            an arbitrary bounded state keeps ledger == census; clear()/destruction returns the census).
+ *            facade_rm_e2e, facade_rm_step, facade_doc_e2e, facade_deepcopy, facade_variant_copy, facade_poollist_move.
  * Oracles: the ledger of alloc.h (g_live_blocks, call counters, the allocator every call must use), CBMC's own double-free /
  * use-after-free checks on the malloc'ed blocks, and the abstract view "a manager is EMPTY iff no string, no pool, inline table of
  * the initial capacity, empty free list" written below from the property text -- never a copy of the code. */
@@ -22,6 +25,9 @@
 #include "lowered_types.h"
 #else
 #include "lowered.c"
+#endif
+#ifdef NO_ALLOCATOR_TYPE /* units whose lowered text never mentions the allocator */
+struct Allocator { void *_vptr; };
 #endif
 #define ALLOC_SHRINK_IN_PLACE 1
 /* one watched block: was it handed back to the allocator?  (alloc.h releases through free(); the hook records it) */
@@ -46,6 +52,7 @@ typedef struct VariantData VD;
 static _Bool list_is_initial(const PoolList *l) {
   return l->count_ == 0 && (uint64_t)l->freeList_ == CFG_NULL_SLOT && l->pools_ == l->preallocatedPools_ && (uint64_t)l->capacity_ == CFG_INITIAL;
 }
+#ifndef U_POOLLIST_MOVE /* (that unit's lowered text has the pool table only) */
 static _Bool rm_is_empty(const RM *r) { return r->stringPool_.strings_ == 0 && list_is_initial(&r->variantPools_); }
 static uint64_t vd_bits(const VD *v) { uint64_t b = 0; memcpy(&b, &v->content_, sizeof v->content_ < 8 ? sizeof v->content_ : 8); return b; }
 static _Bool vd_same(const VD *a, const VD *b) { return a->type_ == b->type_ && a->next_ == b->next_ && vd_bits(a) == vd_bits(b); }
@@ -55,6 +62,7 @@ static void vd_havoc(VD *v) {
   v->type_ = in_u8();
   v->next_ = (__typeof__(v->next_))in_u32();
 }
+#endif
 
 /* =============================================================================================================================
  * unit facade_rm (modular, class U): ResourceManager::clear / ~ResourceManager / shrinkToFit / swap / constructor against the
@@ -520,7 +528,11 @@ void h_rm_step(void) {
   l->freeList_ = (__typeof__(l->freeList_))fl;
   __CPROVER_assume(g_live_blocks == rm_census(r)); /* holds by construction; stated for the reader */
   _Bool over0 = r->overflowed_;
+#ifdef STEP_OP
+  const unsigned op = STEP_OP; /* one operation per obligation where the symbolic choice is too expensive (heap table) */
+#else
   unsigned op = in_u8();
+#endif
   __CPROVER_assume(op < 3);
   unsigned f0 = g_alloc_failures;
   _Bool op_failed = 0;
@@ -543,13 +555,20 @@ void h_rm_step(void) {
   } else {
     ResourceManager__shrinkToFit(r);
   }
+#if !defined(STEP_OP) || STEP_OP == 0
   COVER(op == 0 && !op_failed && o.np == NP); COVER(op == 0 && op_failed && g_alloc_failures > f0); COVER(op == 0 && !op_failed && (uint64_t)fl != CFG_NULL_SLOT);
-  COVER(op == 1 && !op_failed && o.ns == NSTR); COVER(op == 1 && op_failed); COVER(op == 2 && o.np > 0);
+#endif
+#if !defined(STEP_OP) || STEP_OP == 1
+  COVER(op == 1 && !op_failed && o.ns == NSTR); COVER(op == 1 && op_failed);
+#endif
+#if !defined(STEP_OP) || STEP_OP == 2
+  COVER(op == 2 && o.np > 0);
+#endif
   CHECK(g_alloc_failures == f0 || op == 2 || op_failed, "C05: a failing allocation is reported: the operation hands out nothing");
   CHECK(r->overflowed_ == (over0 || op_failed), "C05: overflowed() is raised exactly by a failed operation and kept until clear()");
   CHECK(wf_list_fields(l) && l->pools_ != 0 && l->count_ >= o.np && l->count_ <= o.np + 1, "C05: the pool table stays well formed, failed or not");
 #ifdef CANARY_RM_STEP
-  CHECK(g_live_blocks == rm_census(r) + (op == 1 && o.ns == 1 && !op_failed), "C06 (inductive invariant): after the operation the live blocks are exactly those the manager owns");
+  CHECK(g_live_blocks == rm_census(r) + (o.ns == 1 && !op_failed), "C06 (inductive invariant): after the operation the live blocks are exactly those the manager owns");
 #else
   CHECK(g_live_blocks == rm_census(r), "C06 (inductive invariant): after the operation the live blocks are exactly those the manager owns");
 #endif
@@ -777,7 +796,6 @@ static _Bool g_set_result, g_set_dst_was_fresh, g_set_allocated;
 static int g_set_live_at_entry;
 static struct Allocator *g_set_dst_alloc;
 static VD g_src_snapshot;           /* the value the caller designated as source, taken before the call */
-static _Bool g_src_is_in_dst;       /* scenario: the source lives in the destination document */
 _Bool VariantRefBase_JsonVariant__set_JsonVariantConst(struct VariantRefBase_JsonVariant *self, struct JsonVariantConst *value) {
   struct JsonVariant *dst = (struct JsonVariant *)self;
   g_set_calls++;
@@ -830,7 +848,7 @@ static void copy_ghost_reset(void) {
   g_vclear_calls = 0; g_watch_block = 0; g_watch_freed = 0;
   alloc_reset();
   g_set_calls = 0; g_set_dst_data = g_set_src_data = 0; g_set_dst_rm = g_set_src_rm = 0;
-  g_set_result = g_set_dst_was_fresh = g_set_allocated = 0; g_set_live_at_entry = -1; g_set_dst_alloc = 0; g_src_is_in_dst = 0;
+  g_set_result = g_set_dst_was_fresh = g_set_allocated = 0; g_set_live_at_entry = -1; g_set_dst_alloc = 0;
 }
 /* e is bit-for-bit what it was (snapshot e0 + the blocks recorded in oe), for an arbitrary pool index j */
 static _Bool doc_untouched(const Doc *e, const Doc *e0, const Owned *oe, unsigned j) {
